@@ -377,7 +377,9 @@ def negative_static(params):
     return out
 
 
-CASES = {"chain": run_chain, "negative": negative_requests, "negative_static": negative_static}
+from mc.core import safe  # noqa: E402
+CASES = {k: safe("C01", f) for k, f in {"chain": run_chain, "negative": negative_requests,
+                                        "negative_static": negative_static}.items()}
 
 
 # ------------------------------------------------------------------ explorer
@@ -455,8 +457,8 @@ def _negative(shard):
     cls, seeds = shard
     for recipe in seeds:
         params = dict(recipe=recipe)
-        res = negative_requests(params)
-        part.count("negative_requests", params.pop("_tried"))
+        res = CASES["negative"](params)
+        part.count("negative_requests", params.pop("_tried", 0))
         for sig, msg in res:
             part.violation(sig, msg, "negative", params)
     return part
@@ -503,8 +505,8 @@ def run(ctx):
                 ctx.merge(p)
     for cls in ("monoidal", "rigid"):
         params = dict(cls=cls)
-        res = negative_static(params)
-        ctx.count("negative_requests", params.pop("_tried"))
+        res = CASES["negative_static"](params)
+        ctx.count("negative_requests", params.pop("_tried", 0))
         for sig, msg in res:
             ctx.violation(sig, msg, "negative_static", params)
     c01_classes.run(ctx)
